@@ -575,6 +575,12 @@ func (t *SymbolTable) mapStringToNoneTerminal(s Strings, suffix string) grammar.
 		name = fmt.Sprintf("gen_%s_%s", name, suffix)
 	}
 
+	// The name must not denote another non-terminal already (e.g., "*" and star both map to gen_star_...).
+	for _, taken := t.nonTerminals.table.Get(grammar.NonTerminal(name)); taken; _, taken = t.nonTerminals.table.Get(grammar.NonTerminal(name)) {
+		t.strings.counter++
+		name = fmt.Sprintf("gen%d_%s", t.strings.counter, suffix)
+	}
+
 	return grammar.NonTerminal(name)
 }
 
